@@ -36,6 +36,13 @@ def run(ctx):
     for i in range(n):
         g = Gen(random.Random(rng.randrange(1 << 30)), typed=(i % 3 != 0), gnu=(i % 2 == 0), kr=(i % 5 == 0), maxdepth=3 + i % 3)
         cases.append((2 if i % 4 else 3, "a", g.program()))
+    # every ambiguity form in every expression / statement slot with every way of declaring the names (C09's generator; valid programs whose
+    # default-mode tree must be ambiguity-free): an ambiguity that is "resolved" without its parent being updated is unparsed twice or lost
+    from gen.ambiggen import AmbigGen
+    amb = AmbigGen(rng).all_cases(every=8)
+    rng.shuffle(amb)
+    for c in amb[:1500 if ctx.quick else 30000]:
+        cases.append((2 if rng.random() < 0.7 else 3, "a", c["text"]))
     # MALFORMED inputs: the property speaks of "every input that parses without diagnostics" - a malformed text that parses without
     # diagnostics and comes back with tokens missing was accepted silently (C01: "malformed input is answered with diagnostics")
     base = [(c, t) for c, t in corpus() if 'R"' not in t]
